@@ -55,6 +55,7 @@ def check(facts, rep, tier, cfg):
     check_r3(facts, rep, crate, bodies)
     check_r4(facts, rep, crate, bodies)
     check_r5_counters(facts, rep, bodies)
+    check_r6_joint(facts, rep, crate, bodies)
 
 
 def check_r2(facts, rep, bodies):
@@ -179,6 +180,49 @@ def _sends_finish(facts, crate, c):
                 r = True
     _finish_cache[dp] = r
     return r
+
+
+def check_r6_joint(facts, rep, crate, bodies):
+    rid = "C13.R6"
+    rep.rule(rid, "joint poll: both directions are polled on every poll, and an error of either direction is returned before any Pending "
+                  "return (its `?` dominates every Poll::Pending exit), so a failure never waits for unrelated traffic")
+    n = 0
+    for b in bodies:
+        dirs = {}
+        for bi, t in b.calls():
+            c = callee(t)
+            if c and c["name"] in ("poll_read_us", "poll_write_us"):
+                dirs[c["name"]] = bi
+        if len(dirs) < 2:
+            continue
+        n += 1
+        rep.analysed(b)
+        tr = Tracer(facts, b)
+        where = "%s (%s)" % (loc_str(b.loc), b.path)
+        pend = [bi for bi, blk in enumerate(b.blocks) if not blk["cleanup"] for st in blk["stmts"]
+                if st["k"] == "Assign" and st["lhs"]["l"] == 0 and not st["lhs"].get("p") and st["rv"]["k"] == "Aggregate"
+                and st["rv"]["agg"].get("variant") == "Pending"]
+        branches = {}
+        for bi, t in b.calls():
+            c = callee(t)
+            if c and c["name"] == "branch":
+                for name, cb in dirs.items():
+                    if derives_from_call(tr.operand(t["args"][0]), cb):
+                        branches.setdefault(name, []).append(bi)
+        probs = []
+        for name, cb in dirs.items():
+            if not all(b.dominates(cb, p) for p in pend):
+                probs.append("%s is not polled before a Pending return" % name)
+            if not branches.get(name):
+                probs.append("the result of %s is not propagated with `?`" % name)
+            elif not all(any(b.dominates(br, p) for br in branches[name]) for p in pend):
+                probs.append("the error of %s is examined only after a Pending return of the other direction" % name)
+        if probs:
+            rep.bad(rid, "%s/errors-before-pending" % b.path, where, "; ".join(probs) + ": a failed direction registered no waker, so the bridge "
+                    "sleeps until the other side happens to produce traffic")
+        else:
+            rep.ok(rid, "%s/errors-before-pending" % b.path, where, "both `?` dominate the %d Pending exits" % len(pend))
+    rep.floor(rid, "joint poll bodies", n, 1)
 
 
 def check_r4_written_amount(facts, rep, bodies, rid="C13.R4"):
